@@ -16,6 +16,8 @@ namespace VlsModel.Locks
 /-- lock classes (the symbolic classes of the generated table) -/
 inductive Cls
   | tracker | channels | slot | monitor | monitorDecode | nodeState | validatorFactory | store
+  /-- the approvers' own mutexes (`VelocityApprover.control`, `MemoApprover.approvals` of approver.rs) -/
+  | approver
   deriving DecidableEq, Repr, Inhabited
 
 /-- a concrete lock: class and instance (channel rank for `slot`/`monitor`, 0 otherwise) -/
